@@ -550,7 +550,8 @@ class ObservableResource(Resource, metaclass=abc.ABCMeta):
                 if is_last:
                     return
         finally:
-            servobs._cancellation_callback()
+            if servobs._accepted:
+                servobs._cancellation_callback()
 
     async def render_to_pipe(self, request: Pipe) -> None:
         warnings.warn(
